@@ -34,6 +34,10 @@ func c11(env *core.Env) {
 			name = fmt.Sprintf("reg.example:%d", 5000+i)
 		}
 		h := &regHost{name: name, realmHost: "auth." + name, service: name, mode: modes[c.Int("mode", len(modes))]}
+		h.bearerDeny = []string{"", "", "none", "unknown", "malformed"}[c.Int("bearerdeny", 5)]
+		if c.Bool("spurious401", 1, 5) {
+			h.spurious401 = c.Range("spurious401.n", 1, 2)
+		}
 		if samePort {
 			h.realmHost = fmt.Sprintf("auth%d.example", i)
 		}
@@ -150,7 +154,12 @@ func c11(env *core.Env) {
 						env.Failf("C11/body-not-closed", "the body obtained from GetBody for attempt %d was never closed (status %d, err %v). %s", i+2, res.status, res.err, describeOuts(res.outs))
 					}
 				}
-				if lastReg != nil && lastReg.status == 401 && lastReg.bearer != "" {
+				// (the statement ties the 403 to the second of the "at most two attempts": a
+				// token acquired in answer to this call's challenge and refused again. A token
+				// acquired before the first attempt - refresh token and a challenge remembered
+				// from an earlier call - that meets a 401 without a usable challenge leaves the
+				// transport nothing to retry with; that 401 is handed to the caller as it is.)
+				if lastReg != nil && lastReg.status == 401 && lastReg.bearer != "" && nreg == 2 {
 					if it := w.issued[lastReg.bearer]; it != nil && it.callID == id && res.err == nil {
 						if res.status != http.StatusForbidden {
 							env.Failf("C11/401-after-fresh-token", "the registry answered 401 to a token acquired in the same call; the caller got status %d instead of 403. %s", res.status, describeOuts(res.outs))
